@@ -684,13 +684,13 @@ theorem C03_match_reads_in_span (c : Ctx) (n : Nat) (fn : Nat → Nat → Bool) 
     exact matchBacktrackI_span c n fn ok st rs h
 
 -- non-vacuity: the matcher steps over the ignored mark (index 2) and stops at index 3; both are among the reads
-example : (matchInputI exCtx 1 (fun g i => g == [2].getD i 0) [0, 0, 0, 0]).map MatchInI.view
+example : (matchInputI spanCtx 1 (fun g i => g == [2].getD i 0) [0, 0, 0, 0]).map MatchInI.view
     = .ok (true, 4, [.inp 1, .inp 2, .inp 3], .matched) := by rfl
-example : (matchInputI exCtx 1 (fun g i => g == [3].getD i 0) [0, 0, 0, 0]).map MatchInI.view
+example : (matchInputI spanCtx 1 (fun g i => g == [3].getD i 0) [0, 0, 0, 0]).map MatchInI.view
     = .ok (false, 4, [.inp 1, .inp 2, .inp 3], .iter) := by rfl
-example : matchLookaheadI exCtx 1 (fun g _ => g == 3) 4 = .ok ((true, 5), [4]) := by rfl
-example : matchBacktrackI exCtx 1 (fun g _ => g == 5) = .ok ((true, 0), [0]) := by rfl
-example : exCtx.buf.idx < exCtx.buf.len := by decide
+example : matchLookaheadI spanCtx 1 (fun g _ => g == 3) 4 = .ok ((true, 5), [4]) := by rfl
+example : matchBacktrackI spanCtx 1 (fun g _ => g == 5) = .ok ((true, 0), [0]) := by rfl
+example : spanCtx.buf.idx < spanCtx.buf.len := by decide
 
 /-- **a context rule that matched flagged everything it inspected** (`apply_context`, Context formats 1 and 2; format 3 is the
     same code inline).  When the rule returns `(c', true)`: match_input succeeded with reads `R.reads`, the flag call was
@@ -756,11 +756,11 @@ theorem C03_context_match_flags_inspected (recurse : Ctx → Nat → M (Ctx × B
 
 -- non-vacuity: the rule "1 (marks ignored) 2" on glyphs 5 | 1 mark 2 3: matched, reads = [1, 2, 3], the mark (cluster 2) and
 -- the glyph 2 (cluster 3) are flagged, the first glyph of the range (minimum cluster 1) is not
-example : ∃ c', applyContextRule noRecurse exCtx [2] (fun g v => g == v) [] = .ok (c', true) ∧
+example : ∃ c', applyContextRule spanNoRecurse spanCtx [2] (fun g v => g == v) [] = .ok (c', true) ∧
     c'.buf.info.map (·.mask) = [1, 1, 3, 3, 1] ∧
-    exCtx.buf.idx < exCtx.buf.len ∧ exCtx.buf.len ≤ exCtx.buf.info.length ∧
-    (∀ j x, exCtx.buf.idx ≤ j → j < exCtx.buf.len → exCtx.buf.info[j]? = some x → x.cluster ≤ U32MAX) ∧
-    MonoRange exCtx.buf.info exCtx.buf.idx exCtx.buf.len :=
+    spanCtx.buf.idx < spanCtx.buf.len ∧ spanCtx.buf.len ≤ spanCtx.buf.info.length ∧
+    (∀ j x, spanCtx.buf.idx ≤ j → j < spanCtx.buf.len → spanCtx.buf.info[j]? = some x → x.cluster ≤ U32MAX) ∧
+    MonoRange spanCtx.buf.info spanCtx.buf.idx spanCtx.buf.len :=
   ⟨_, rfl, rfl, by decide, by decide, fun j x _ _ hx => u32_of_all (by decide) j x hx, MonoRange.of_pairwise (by decide) _ _⟩
 
 /-- **a chain rule that matched flagged everything it inspected** (`apply_chain_context`, ChainContext formats 1-3), in the
@@ -851,18 +851,18 @@ theorem C03_chain_match_flags_inspected (recurse : Ctx → Nat → M (Ctx × Boo
 
 -- non-vacuity: backtrack 5, input "1 (marks ignored) 2", lookahead 3 on glyphs 5 | 1 mark 2 3: matched, the span is the whole
 -- buffer, reads = input [1, 2, 3] + lookahead [4] + backtrack out[0]; everything outside cluster 0 is flagged
-example : (chainMatchI exCtx 1 1 1 (fun g _ => g == 5) (fun g _ => g == 2) (fun g _ => g == 3)).map ChainM.view
+example : (chainMatchI spanCtx 1 1 1 (fun g _ => g == 5) (fun g _ => g == 2) (fun g _ => g == 3)).map ChainM.view
     = .ok (.matched, 0, 5, [.inp 1, .inp 2, .inp 3, .inp 4, .out 0]) := by rfl
-example : ∃ c', applyChainRule noRecurse exCtx 1 1 1 (fun g _ => g == 5) (fun g _ => g == 2) (fun g _ => g == 3) []
+example : ∃ c', applyChainRule spanNoRecurse spanCtx 1 1 1 (fun g _ => g == 5) (fun g _ => g == 2) (fun g _ => g == 3) []
       = .ok (c', true) ∧ c'.buf.info.map (·.mask) = [1, 3, 3, 3, 3] ∧
-    exCtx.buf.idx < exCtx.buf.len ∧ Buf.WF exCtx.buf ∧ exCtx.buf.haveOutput = true ∧
-    (∀ j x, j < exCtx.buf.outLen → exCtx.buf.outArr[j]? = some x → x.cluster ≤ U32MAX) ∧
-    (∀ j x, exCtx.buf.idx ≤ j → j < exCtx.buf.len → exCtx.buf.info[j]? = some x → x.cluster ≤ U32MAX) ∧
-    MonoRange exCtx.buf.outArr 0 exCtx.buf.outLen ∧ MonoRange exCtx.buf.info exCtx.buf.idx exCtx.buf.len :=
-  ⟨_, rfl, rfl, by decide, ⟨by decide, by decide, by simp [exCtx], by decide⟩, rfl,
-   fun j x _ hx => u32_of_all (l := exCtx.buf.outArr) (by decide) j x hx,
+    spanCtx.buf.idx < spanCtx.buf.len ∧ Buf.WF spanCtx.buf ∧ spanCtx.buf.haveOutput = true ∧
+    (∀ j x, j < spanCtx.buf.outLen → spanCtx.buf.outArr[j]? = some x → x.cluster ≤ U32MAX) ∧
+    (∀ j x, spanCtx.buf.idx ≤ j → j < spanCtx.buf.len → spanCtx.buf.info[j]? = some x → x.cluster ≤ U32MAX) ∧
+    MonoRange spanCtx.buf.outArr 0 spanCtx.buf.outLen ∧ MonoRange spanCtx.buf.info spanCtx.buf.idx spanCtx.buf.len :=
+  ⟨_, rfl, rfl, by decide, ⟨by decide, by decide, by simp [spanCtx], by decide⟩, rfl,
+   fun j x _ hx => u32_of_all (l := spanCtx.buf.outArr) (by decide) j x hx,
    fun j x _ _ hx => u32_of_all (by decide) j x hx,
-   MonoRange.of_pairwise (l := exCtx.buf.outArr) (by decide) _ _, MonoRange.of_pairwise (by decide) _ _⟩
+   MonoRange.of_pairwise (l := spanCtx.buf.outArr) (by decide) _ _, MonoRange.of_pairwise (by decide) _ _⟩
 
 /-- **Ligature::apply, a ligature that forms**: everything match_input read in the in-buffer lies in `[idx, match_end)`, the
     range `ligate_input` merges into one cluster (`merge_clusters(idx, match_end)`; at cluster level 2 that call IS
@@ -910,9 +910,9 @@ theorem C03_ligature_match_reads_merged (c c' : Ctx) (comps : List Nat) (lig : N
 
 -- non-vacuity: "x (ligatures ignored) mark -> 99" on x, ligature, unattached mark, mark: the ligature forms, the skipped
 -- ligature glyph (index 1) and the mark (index 2) are among the reads, `match_end` = 3
-example : (matchInputI (ligCtx 8) 1 (fun g i => g == [10].getD i 0) [0, 0, 0, 0]).map MatchInI.view
+example : (matchInputI (spanLigCtx 8) 1 (fun g i => g == [10].getD i 0) [0, 0, 0, 0]).map MatchInI.view
     = .ok (true, 3, [.inp 0, .inp 1, .inp 2], .matched) := by rfl
-example : (ligatureRule (ligCtx 8) ([10], 99)).map (fun r => ((r.1.buf.outArr.take r.1.buf.outLen).map (·.gid), r.2))
+example : (ligatureRule (spanLigCtx 8) ([10], 99)).map (fun r => ((r.1.buf.outArr.take r.1.buf.outLen).map (·.gid), r.2))
     = .ok ([99, 20], true) := by rfl
 
 end RbModel.Flags
@@ -968,11 +968,11 @@ theorem C03_context_decision_local (c1 c2 : Ctx) (hs : Similar c1 c2)
 -- non-vacuity: the last glyph of the example buffer (index 4, not read by the rule "1 (marks ignored) 2") is replaced by
 -- another glyph: the two contexts are Similar, agree on the reads [1, 2, 3] (which contain the skipped mark and the stop
 -- glyph), and differ at index 4
-example : ∃ c2 : Ctx, Similar exCtx c2 ∧ exCtx.buf.info[exCtx.buf.idx]? = c2.buf.info[exCtx.buf.idx]? ∧
-    AgreeOn exCtx c2 [.inp 1, .inp 2, .inp 3] ∧ exCtx.buf.info[4]? ≠ c2.buf.info[4]? ∧
-    (matchInputI exCtx 1 (fun g i => g == [2].getD i 0) [0, 0, 0, 0]).map MatchInI.view
+example : ∃ c2 : Ctx, Similar spanCtx c2 ∧ spanCtx.buf.info[spanCtx.buf.idx]? = c2.buf.info[spanCtx.buf.idx]? ∧
+    AgreeOn spanCtx c2 [.inp 1, .inp 2, .inp 3] ∧ spanCtx.buf.info[4]? ≠ c2.buf.info[4]? ∧
+    (matchInputI spanCtx 1 (fun g i => g == [2].getD i 0) [0, 0, 0, 0]).map MatchInI.view
       = .ok (true, 4, [.inp 1, .inp 2, .inp 3], .matched) := by
-  refine ⟨{ exCtx with buf := { exCtx.buf with info := exCtx.buf.info.set 4 { gid := 77, mask := 1, cluster := 4, var1 := 2 } } },
+  refine ⟨{ spanCtx with buf := { spanCtx.buf with info := spanCtx.buf.info.set 4 { gid := 77, mask := 1, cluster := 4, var1 := 2 } } },
     ⟨rfl, rfl, rfl, rfl, rfl, rfl, rfl, rfl, rfl, rfl, rfl⟩, rfl, ?_, by decide, rfl⟩
   intro x hx
   simp only [List.mem_cons, List.not_mem_nil, or_false] at hx
@@ -1059,13 +1059,13 @@ theorem C03_reverse_match_flags_inspected (c c' : Ctx) (back ahead : List Cov) (
 
 -- non-vacuity: backtrack [5], lookahead [3] (marks ignored) on 5 mark [1] mark 3: reads = current glyph, backtrack out[1]
 -- (the skipped mark), out[0], lookahead inp 3 (the skipped mark), inp 4; span = the whole buffer
-example : revMatchI revCtx [[5]] [[3]] = .ok (true, 0, 5, [.inp 2, .out 1, .out 0, .inp 3, .inp 4]) := by rfl
-example : ∃ c', (revMatchI revCtx [[5]] [[3]] >>= revFinish revCtx 7) = .ok (c', true) ∧
+example : revMatchI spanRevCtx [[5]] [[3]] = .ok (true, 0, 5, [.inp 2, .out 1, .out 0, .inp 3, .inp 4]) := by rfl
+example : ∃ c', (revMatchI spanRevCtx [[5]] [[3]] >>= revFinish spanRevCtx 7) = .ok (c', true) ∧
     c'.buf.info.map (fun x => (x.gid, x.mask)) = [(5, 1), (10, 3), (7, 3), (10, 3), (3, 3)] ∧
-    revCtx.buf.idx < revCtx.buf.len ∧ revCtx.buf.len ≤ revCtx.buf.info.length ∧ revCtx.buf.haveOutput = false ∧
-    revCtx.buf.sepOut = false ∧
-    (∀ j x, j < revCtx.buf.len → revCtx.buf.info[j]? = some x → x.cluster ≤ U32MAX) ∧
-    MonoRange revCtx.buf.info 0 revCtx.buf.len :=
+    spanRevCtx.buf.idx < spanRevCtx.buf.len ∧ spanRevCtx.buf.len ≤ spanRevCtx.buf.info.length ∧ spanRevCtx.buf.haveOutput = false ∧
+    spanRevCtx.buf.sepOut = false ∧
+    (∀ j x, j < spanRevCtx.buf.len → spanRevCtx.buf.info[j]? = some x → x.cluster ≤ U32MAX) ∧
+    MonoRange spanRevCtx.buf.info 0 spanRevCtx.buf.len :=
   ⟨_, rfl, rfl, by decide, by decide, rfl, rfl, fun j x _ hx => u32_of_all (by decide) j x hx,
    MonoRange.of_pairwise (by decide) _ _⟩
 
